@@ -1,2 +1,2 @@
-import NipyVerif.Model.C18B
-def main : IO Unit := NipyVerif.driverLoop NipyVerif.C18.runB
+import NipyVerif.Model.C18C
+def main : IO Unit := NipyVerif.driverLoop NipyVerif.C18.runC
